@@ -1583,7 +1583,10 @@ def _id(it, lv, ca, node):
     # all objects whose id was taken on this path (no quantified axiom needed)
     seen = it.st.ghost.setdefault("$id_args", [])
     x = ca.pos[0]
+    dead = it.st.ghost.get("$collected", [])
     for y in seen:
+        if any(d.eq(y) or d.eq(x) for d in dead):
+            continue            # the address of a collected object may be handed out again: no injectivity across lifetimes
         it.st.assume(z3.Implies(id_of(x) == id_of(y), x == y))
     seen.append(x)
     return V.VInt(id_of(x))
